@@ -9,7 +9,7 @@
     started.  PARTIAL like C14 for the Go-runtime part; the harness checks on
     every run that a writer cannot commit while the copy is in progress. *)
 From Coq Require Import List Arith Lia Bool.
-From Verif Require Import Conc ConcFacts Engine ReplayFacts.
+From Verif Require Import Conc ConcFacts Engine ReplayFacts Merge MergeFacts DiskBytes.
 Import ListNotations.
 
 (** the copy step of Backup reads the directory and changes nothing *)
@@ -39,6 +39,18 @@ Theorem C18_copy_opens_to_same_state : forall w o,
   w_disk w' = w_disk w /\ Inv w'.
 Proof. exact reopen_preserves. Qed.
 Print Assumptions C18_copy_opens_to_same_state.
+
+(** byte level: Backup copies FILES.  For every world reachable by calls, the bytes of
+    its data files (what filesystem.CopyDir copies), scanned and replayed by Open with any
+    options, rebuild the indexes, committed ids and offsets of the running process *)
+Theorem C18_copied_bytes_open_to_same_state : forall now cs o o',
+  (now < 2^64)%N -> seg_size_ok o -> calls_ok now (empty_world o) cs -> Forall call_sizes_ok cs ->
+  let w := run_calls now (empty_world o) cs in
+  exists w', open_bytes o' (bytes_of_disk (o_seg o') (w_disk w)) = Some w' /\ w_ix w' = w_ix w /\
+    (forall id, nmem id (w_committed w') = nmem id (w_committed w)) /\ w_maxfid w' = w_maxfid w /\
+    w_woff w' = w_woff w /\ w_asize w' = w_asize w /\ w_disk w' = w_disk w /\ Inv w'.
+Proof. exact reachable_reopen_bytes. Qed.
+Print Assumptions C18_copied_bytes_open_to_same_state.
 
 Example C18_nonvacuous :
   let o := mkOpts 0 FileIO FileIO true 200 in
